@@ -92,6 +92,18 @@ func c01(in []byte, entry int) {
 		}
 		blocks, _ = Parse(in)
 		vunfreezeBytes(in)
+	} else if entry == 4 {
+		// in-memory Parse handed a sub-slice of a larger buffer: neither the visible
+		// bytes nor the spare capacity behind them may be written, with or without NUL
+		backing := make([]byte, 3*n+8)
+		copy(backing, in)
+		for i := n; i < len(backing); i++ {
+			backing[i] = 0xAA
+		}
+		in = backing[:n]
+		whole := cloneBytes(backing)
+		blocks, _ = Parse(in)
+		check(vsame(backing, whole), "C01.no-write.buffer")
 	} else if entry == 1 {
 		var err error
 		blocks, _, err = parseStream(&oneShotReader{data: cloneBytes(in)})
@@ -145,7 +157,7 @@ func c01(in []byte, entry int) {
 		check(b.StartLine == 1+lineCountRef(orig[:s]), "C01.line")
 		if !hasNul {
 			check(e-s == len(src), "C01.len")
-			if entry == 0 && len(src) > 0 && s < n {
+			if (entry == 0 || entry == 4) && len(src) > 0 && s < n {
 				check(vaddrOf(src) == vaddrOf(in[s:]), "C01.alias")
 			}
 		}
